@@ -23,7 +23,10 @@ def main():
             assert r.returncode == 0, r.stderr
             env = dict(os.environ, PYTHONPATH=f"{wt}/src")
             base = sh(f"/venv/bin/python {d}/demo.py", cwd=wt, env=env, timeout=600)
-            ap = sh(f"git -C {wt} apply {d}/patch.diff")
+            pf = f"{d}/patch_ported.diff" if os.path.exists(f"{d}/patch_ported.diff") else f"{d}/patch.diff"
+            ap = sh(f"git -C {wt} apply {pf}")
+            if ap.returncode != 0:
+                ap = sh(f"patch -p1 -s -d {wt} -i {pf}")
             applied = ap.returncode == 0
             mut = sh(f"/venv/bin/python {d}/demo.py", cwd=wt, env=env, timeout=600) if applied else None
             bl = sh(f"python3 /verif/tools/baseline.py {wt} -n 0", timeout=3600) if applied else None
